@@ -152,9 +152,13 @@ wt!(c08_bc_blk00_sibling_n1, hk_c08_bc_blk00_sibling_n1, BcBlk00, 4, 0, cap 1);
 wt!(c08_mp_blk00_sibling_n1, hk_c08_mp_blk00_sibling_n1, MpBlk00, 4, 0, cap 1);
 wt!(c08_mp_blk11_send, hk_c08_mp_blk11_send, MpBlk11, 1, 0);
 wt!(c08_bc_blk20_view, hk_c08_bc_blk20_view, BcBlk20, 5, 0);
-// spinning strategies: the stuck detector fires after 16 fruitless steps with nobody left to run
-wt!(c08_mp_busy_send, hk_c08_mp_busy_send, MpBusy, 1, 16);
-wt!(c08_mp_busy_drop, hk_c08_mp_busy_drop, MpBusy, 3, 16);
-wt!(c08_bc_yield11_senddrop, hk_c08_bc_yield11_senddrop, BcYield11, 2, 16);
-wt!(c08_mp_yield01_sibling, hk_c08_mp_yield01_sibling, MpYield00, 4, 16);
-wt!(c08_mp_busy_sibling_n1, hk_c08_mp_busy_sibling_n1, MpBusy, 4, 16, cap 1);
+// spinning strategies: the stuck detector fires after 24 fruitless steps with nobody left to run
+wt!(c08_mp_busy_send, hk_c08_mp_busy_send, MpBusy, 1, 24);
+wt!(c08_mp_busy_drop, hk_c08_mp_busy_drop, MpBusy, 3, 24);
+wt!(c08_bc_yield11_senddrop, hk_c08_bc_yield11_senddrop, BcYield11, 2, 24);
+wt!(c08_mp_yield01_sibling, hk_c08_mp_yield01_sibling, MpYield00, 4, 24);
+wt!(c08_mp_busy_sibling_n1, hk_c08_mp_busy_sibling_n1, MpBusy, 4, 24, cap 1);
+
+// C15: the direct (non-Stream) blocking recv of a futures receiver must behave like the plain one
+wt!(c15_mpfut_direct_recv, hk_c15_mpfut_direct_recv, MpmcFut<u8, 0, 0>, 1, 0);
+wt!(c15_bcfut_direct_recv_drop, hk_c15_bcfut_direct_recv_drop, BcastFut<u8, 0, 0>, 3, 0);
